@@ -52,12 +52,21 @@ H = 20037508.342789244
 
 
 def gen(t, tier):
-    gk = t.weighted([('global2', 3), ('sqrt2', 2), ('custom', 3), ('local2', 2)])
+    gk = t.weighted([('global2', 3), ('sqrt2', 2), ('custom', 3), ('local2', 2), ('near', 1)])
     if gk == 'global2':
         grid = {'srs': 'EPSG:3857', 'tile_size': [64, 64], 'num_levels': t.randint(3, 5), 'origin': t.pick(['ll', 'ul'])}
     elif gk == 'sqrt2':
         grid = {'srs': 'EPSG:3857', 'tile_size': [64, 64], 'res_factor': 'sqrt2', 'num_levels': t.randint(4, 7),
                 'origin': t.pick(['ll', 'ul'])}
+    elif gk == 'near':
+        # resolutions chosen so that a tile border of level 1 lies a little more than one pixel of the LAST level, but less than
+        # a tenth of a level-1 pixel, inside a level-0 tile: three level-1 tiles fall short of one level-0 tile by d
+        ts = 32
+        m = t.pick([3, 5])
+        k = t.pick([1.2, 1.5])
+        res1 = 32000.0 / (ts * m + k / 16.0)
+        grid = {'srs': 'EPSG:3857', 'tile_size': [ts, ts], 'bbox': [1000000, 6000000, 1064000, 6032000],
+                'res': [1000.0, res1, res1 / 2, res1 / 4, res1 / 8, res1 / 16], 'origin': t.pick(['ll', 'ul'])}
     elif gk == 'custom':
         bbox = [1000000, 6000000, 1000000 + t.pick([100000, 140000, 64000]), 6000000 + t.pick([70000, 100000, 51000])]
         res = sorted(set(t.pick([2000, 1000, 800, 400, 300, 150, 100, 70, 50]) for _ in range(t.randint(2, 5))), reverse=True)
@@ -71,13 +80,17 @@ def gen(t, tier):
     sc = {'grid': grid, 'gk': gk, 'meta_size': t.pick([[1, 1], [2, 2], [3, 3], [2, 1], [4, 4]]),
           'levels': t.pick(['all', 'all', 'last2', 'first', 'odd', 'range', 'to0', 'from0to0', 'open_to', 'open_from', 'to_big',
                             'list_big', 'res_list', 'res_range']),
-          'coverage': t.weighted([('none', 2), ('bbox', 3), ('lshape', 2), ('multi', 2), ('two', 2), ('tiny', 1), ('edge', 4)]),
+          'coverage': t.weighted([('none', 2), ('bbox', 3), ('lshape', 2), ('multi', 2), ('two', 2), ('tiny', 1), ('edge', 4), ('tilebox', 3)]),
           'cov_seed': [t.choice(1000), t.choice(1000), t.choice(1000), t.choice(1000)],
           'cov_srs': t.pick(['3857', '3857', '3857', '4326']),
           'caches': t.pick([1, 1, 1, 2]),
           'skip_geoms': t.pick([0, 0, 0, 1, 2]), 'verbose': bool(t.choice(2)),
           'work': t.pick([0.0, 0.01, 0.3, 0.6, 2.0, 31.0]),
           'interrupts': []}
+    if gk == 'near' and t.chance(0.6):
+        sc['coverage'] = 'tilebox'
+        sc['cov_seed'][0] = 0           # a tile of level 0
+        sc['levels'] = t.pick(['all', 'all', 'last2'])
     for _ in range(t.randint(1, 3)):
         kind = t.weighted([('handoff', 3), ('line', 4), ('write', 2), ('running', 3)])
         sc['interrupts'].append({'kind': kind, 'at': t.choice(1000), 'hard': bool(t.choice(2)),
@@ -118,6 +131,30 @@ def shrink(sc):
 
 class Interrupt(BaseException):
     """stands for KeyboardInterrupt / SIGTERM delivered to the seeding process"""
+
+
+def _orphan_at_grid_edge(grid, meta, m):
+    """is meta tile m = (X, Y, z[+100k]) one whose part inside the grid extent lies beyond the last tile column / row that
+    some coarser level of the grid has (its would-be parent is not a tile of the grid)?"""
+    X, Y, z = m[0], m[1], m[2] % 100
+    x0, y0, x1, y1 = grid.bbox
+    tb = grid.tile_bbox((X * meta[0], Y * meta[1], z))
+    ul = grid.origin in ('ul', 'nw')
+    for p in range(z):
+        nx, ny = grid.grid_sizes[p]
+        tw, th = grid.tile_size[0] * grid.resolutions[p], grid.tile_size[1] * grid.resolutions[p]
+        end_x = x0 + nx * tw
+        if tb[0] >= end_x - 1e-6 * tw and end_x < x1:
+            return True
+        if not ul:
+            end_y = y0 + ny * th
+            if tb[1] >= end_y - 1e-6 * th and end_y < y1:
+                return True
+        else:
+            end_y = y1 - ny * th
+            if tb[3] <= end_y + 1e-6 * th and end_y > y0:
+                return True
+    return False
 
 
 class Bad(Exception):
@@ -181,7 +218,18 @@ def _coverage_geom_3857(sc, gbbox, grid=None):
         bb = [max(x0, bx - 0.3 * (x1 - x0)), max(y0, by - 0.25 * (y1 - y0)), min(x1, bx + ox), min(y1, by + oy)]
         if bb[2] - bb[0] > 4 * rf and bb[3] - bb[1] > 4 * rf:
             return {'bbox': bb, 'srs': 'EPSG:3857'}, box(*bb), {}
-    if sc['coverage'] == 'edge':
+    if sc['coverage'] == 'tilebox' and grid is not None:
+        # exactly the bbox of one (or 2x1) tile(s) of a coarse level: that tile is completely inside the coverage, its
+        # neighbours are not entered at all
+        s0, s1, s2, s3 = sc['cov_seed']
+        L = s0 % max(1, grid.levels - 1)
+        nx, ny = grid.grid_sizes[L]
+        i, j = s1 % nx, s2 % ny
+        tb = list(grid.tile_bbox((i, j, L)))
+        if s3 % 3 == 0 and i + 1 < nx:
+            tb[2] = grid.tile_bbox((i + 1, j, L))[2]
+        return {'bbox': tb, 'srs': 'EPSG:3857'}, box(*tb), {}
+    if sc['coverage'] in ('edge', 'tilebox'):
         sc = dict(sc, coverage='bbox')
     w, h = x1 - x0, y1 - y0
     a, b, c, d = [v / 1000.0 for v in sc['cov_seed']]
@@ -452,6 +500,14 @@ def run(sc, tape):
             probes['handed'] = len(U)
             probes['duplicates_handed'] = len(U) - len(set(U))
             if missing:
+                if all(_orphan_at_grid_edge(grid, sc['meta_size'], m) for m in missing):
+                    # a specific, listed finding (see known_findings.json): reported under its own signature
+                    raise Bad('incomplete-edge-sliver-orphans', 'uninterrupted seeding never handed meta tile(s) %s to the pool '
+                              '(%d expected, %d handed): each of them is a tile at the right/top edge of the grid that reaches into the '
+                              'grid extent by little more than a pixel while the tile of a coarser level above that strip is not part '
+                              'of the grid (TileGrid.grid_sizes drops slivers below a tolerance level by level), so the walker never '
+                              'descends there; grid %s levels %s coverage %s' % (
+                                  missing[:5], len(must), len(Uset), sc['grid'], levels, sc['coverage']))
                 raise Bad('incomplete', 'uninterrupted seeding never handed meta tile(s) %s to the pool (%d expected, %d handed); '
                           'grid %s levels %s coverage %s' % (missing[:5], len(must), len(Uset), sc['gk'], levels, sc['coverage']))
             if extra:
@@ -545,6 +601,8 @@ def run(sc, tape):
             info['skipped'] = skipped_something
     except Bad as b:
         v = {'sig': 'C11:%s:%s' % (b.kind, sc['gk']), 'msg': b.msg}
+        if b.kind == 'incomplete-edge-sliver-orphans':
+            v['sig'] = 'C11:incomplete:edge-sliver-orphans'
     except Exception as ex:
         import traceback
         tb = traceback.extract_tb(ex.__traceback__)
